@@ -232,9 +232,20 @@ func deviceAccessToken(w http.ResponseWriter, r *http.Request, exchanger Exchang
 	if err != nil {
 		return err
 	}
-	if clientAuthenticated != IsConfidentialType(client) {
-		return oidc.ErrInvalidClient().WithParent(ErrNoClientCredentials).
-			WithDescription("confidential client requires authentication")
+	// the client must have authenticated in the way it is registered
+	usedAssertion := r.Form.Get("client_assertion") != ""
+	switch client.AuthMethod() {
+	case oidc.AuthMethodNone:
+	case oidc.AuthMethodPrivateKeyJWT:
+		if !clientAuthenticated || !usedAssertion {
+			return oidc.ErrInvalidClient().WithParent(ErrNoClientCredentials).
+				WithDescription("client requires private_key_jwt authentication")
+		}
+	default:
+		if !clientAuthenticated || usedAssertion {
+			return oidc.ErrInvalidClient().WithParent(ErrNoClientCredentials).
+				WithDescription("confidential client requires authentication")
+		}
 	}
 
 	resp, err := CreateDeviceTokenResponse(r.Context(), tokenRequest, exchanger, client)
